@@ -302,3 +302,37 @@ def run_section_selflink(prog, rep):
     if n < 2:
         raise AnalysisBroken('R-DEL-SELFLINK: deleteSection implementations not found')
     return rule
+
+
+ENTITY_HANDLES = ('nix::DataArray', 'nix::DataFrame', 'nix::Tag', 'nix::MultiTag', 'nix::Source', 'nix::Section', 'nix::Block', 'nix::Group', 'nix::Feature', 'nix::Property')
+
+
+def run_backend_by_handle(prog, rep):
+    """backend functions that are given an entity handle identify the entity by the handle itself or by its id, never by its name
+    (names are unique only within one parent: a handle of another block with the same name would be taken for the local entity)"""
+    rule = rep.rule('R-BYHANDLE-BACK', 'backend functions that receive an entity handle look the entity up by the handle itself or by handle.id(), never by handle.name()', floor=3)
+    n = 0
+    for f in sorted(prog.funcs.values(), key=lambda f: (f.file, f.line)):
+        if f.body is None or not f.q.startswith('nix::hdf5::'):
+            continue
+        hp = [p['name'] for p in f.params if p['type'].replace('const ', '').replace(' &', '').strip() in ENTITY_HANDLES]
+        if not hp:
+            continue
+        k = 0
+        for c in f.calls():
+            if not ((c.callee or {}).get('cls') or '').startswith('nix::') or c.get('op') or (c.callee or {}).get('name') in ('name', 'id'):
+                continue
+            for a in real_args(c):
+                if a is None:
+                    continue
+                for x in a.walk():
+                    if x.k == 'call' and x.get('member') and (x.callee or {}).get('name') in ('name', 'id') and x.c and unwrap(x.c[0]) is not None and unwrap(x.c[0]).k == 'ref' and unwrap(x.c[0]).decl.get('name') in hp:
+                        n += 1
+                        k += 1
+                        rule.check(x.callee.get('name') == 'id', '%s%s|%s|%d' % (f.q, f.sig[:50], (c.callee or {}).get('name'), k), rep.where(c), f.label(), 'identified by %s' % x.src(30),
+                                   '%s is given %s: an entity of another parent that carries the same name is taken for the local one (linked, tested or deleted in its place)' % ((c.callee or {}).get('name'), x.src(30)))
+                    elif x.k == 'ref' and x.decl.get('name') in hp and unwrap(a).id == x.id:
+                        n += 1
+    if n < 3:
+        raise AnalysisBroken('R-BYHANDLE-BACK: only %d handle uses found' % n)
+    return rule
